@@ -269,7 +269,7 @@ pub fn lift_case(id: &str, c: &Compilation, out: &mut String) {
     writeln!(out, "{}\tCASE\t{}\t{}\t{}", id, tagged("liftin", input).to_text(), tagged("liftout", output).to_text(), c01::impls_table(&c.genv).to_text()).unwrap();
 }
 
-fn one(id: &str, outcome: Outcome, src: &str, expected: Option<&str>, out: &mut String) -> bool {
+pub(crate) fn one(id: &str, outcome: Outcome, src: &str, expected: Option<&str>, out: &mut String) -> bool {
     match outcome {
         Outcome::Ok(c) => {
             writeln!(out, "{}\tEXPECT\t{}\t{}", id, if expected.is_some() { "out" } else { "none" }, crate::sexp::esc_line(expected.unwrap_or(""))).unwrap();
@@ -345,6 +345,9 @@ pub fn main(args: &util::Args) {
         let _ = std::fs::remove_dir_all(&dir);
         writeln!(out, "#SITES\taccepted={} rejected={}", n_site, n_rej).unwrap();
     }
+    // capture sites again, the captured variable spelled like a package-level name: each cell with its
+    // alpha-twin and its in-place twin (c08spell.rs)
+    crate::c08spell::stream(args, &mut out);
     // generated closure programs: main stream (flows the pass rewrites) and, every fourth
     // program, exactly one flow outside the rewriting
     let total = args.n.unwrap_or(if args.tier == "thorough" { 12000 } else { 1500 });
